@@ -43,6 +43,9 @@ def handle (j : Json) : Json :=
   match getStr j "op" with
   | "ping" => Json.mkObj [("ok", true)]
   | "parse" => handleParse j
+  | "pptrace" =>
+      let tr := traceLines (normLines (getNat j "n") (getStr j "text").toList) [-1] (-1)
+      Json.mkObj [("trace", Json.arr (tr.map fun (k, d, t) => Json.arr #[Json.num (k : Int), Json.num d, Json.num (t.headD (-2))]).toArray)]
   | "preparse" => Json.mkObj [("out", Json.str (String.ofList (preParse (getNat j "n") (getStr j "text").toList)))]
   | op => Json.mkObj [("error", Json.str s!"unknown-op: {op}")]
 
